@@ -156,14 +156,31 @@ class PageCache(Entity):
         self._pages.move_to_end(page_id)
 
     def _evict_one(self) -> Generator[float]:
-        """Evict the least-recently-used page, flushing if dirty."""
+        """Evict the least-recently-used page, flushing if dirty.
+
+        May return without evicting anything if the cache changed while the
+        write-back was suspended; ``_ensure_space()`` re-checks and retries.
+        """
         if not self._pages:
             return
 
         oldest_id, oldest = next(iter(self._pages.items()))
         if oldest.dirty:
+            # Clear the flag before suspending: the content being written is
+            # the content as of now, so a write that lands during the
+            # write-back must leave the page dirty.
+            oldest.dirty = False
             yield self._disk_write_latency_s
             self._dirty_writebacks += 1
+            # The cache may have been read, written or evicted from while we
+            # were suspended. Only drop the victim if it is still this very
+            # page, still clean and still the least recently used one.
+            if (
+                self._pages.get(oldest_id) is not oldest
+                or oldest.dirty
+                or next(iter(self._pages)) != oldest_id
+            ):
+                return
 
         del self._pages[oldest_id]
         self._evictions += 1
